@@ -96,7 +96,9 @@ def worker(job):
             f["want"] = "noexec"
         cases.append((i, f))
         meta.append((cls, data))
-    res = common.run_harness_single(exe, cases, args=["cases"], tag="fz")
+    # the tools take milliseconds per input; 8 s on a loaded machine is a generous first watchdog (firings are re-run
+    # alone with a budget ten times as large before anything is said about them)
+    res = common.run_harness_single(exe, cases, args=["cases"], tag="fz", env={"VERIF_CASE_TIMEOUT_MS": "8000", "VERIF_MAX_TIMEOUTS": "6"})
     out = {"n": n, "classes": {}, "accepted": 0, "rejected": 0, "located": 0, "diags": {}, "viol": [], "timeouts": [], "san_blocks": 0,
            "distinct": set()}
     for i, (cls, data) in enumerate(meta):
@@ -126,34 +128,68 @@ def worker(job):
     return out
 
 
+def echo_family(which):
+    """Inputs whose rejected line (which the tool's main() echoes in its diagnostic) contains each possible byte, and
+    text that looks like formatting directives."""
+    out = []
+    for b in range(1, 256):
+        c = bytes([b])
+        if which == "x":
+            out += [b"proc main() is " + c + b"\n", b"proc main() is skip " + c + b" ;\n"]
+        else:
+            out += [b"LDAC " + c + b"\n", c + b" 1\nLDAC 1\n"]
+    for t in (b"%s", b"%d", b"%1%", b"%1$s", b"%n", b"%%", b"%|1$|", b"%", b"100%", b"{}", b"{0}", b"\\n", b"%c%c%c%c", b"%99999s"):
+        if which == "x":
+            out += [b"proc main() is 0(" + t + b")\n", b"val a = " + t + b";\nproc main() is skip\n", b"proc main() is skip\n" + t]
+        else:
+            out += [b"LDAC " + t + b"\n", b"BR " + t + b"\n", t + b"\n", b"LDAC 1 # " + t + b"\nOPR " + t + b"\n"]
+    return [("echoed-line", d) for d in out]
+
+
+def _cli_one(args):
+    cli_san, d, k, cls, data, env = args
+    src = os.path.join(d, "in%d.src" % k)
+    outp = os.path.join(d, "out%d.bin" % k)
+    open(src, "wb").write(data)
+    try:
+        r = subprocess.run([cli_san, src, "-o", outp], cwd=d, env=env, stdout=subprocess.PIPE, stderr=subprocess.PIPE, timeout=30)
+        res = (r.returncode, r.stderr.decode("latin-1"), os.path.exists(outp))
+    except subprocess.TimeoutExpired:
+        res = None
+    for f in (src, outp):
+        if os.path.exists(f):
+            os.unlink(f)
+    return cls, data, res
+
+
 def cli_sample(v, which, cli_san, n, rnd, corpus):
-    """A sample through the real main() (argument handling and its own catch logic), sanitizer build."""
+    """A sample through the real main() (argument handling and its own catch logic), sanitizer build: generated cases
+    plus the echoed-line family."""
+    from concurrent.futures import ThreadPoolExecutor
     d = common.scratch("fzcli")
     env = dict(os.environ)
     env["ASAN_OPTIONS"] = "detect_leaks=0:abort_on_error=0:exitcode=66"
     env["UBSAN_OPTIONS"] = "print_stacktrace=1:halt_on_error=1:exitcode=67"
+    items = echo_family(which)
     for i in range(n):
         cls, data = (bytegen.x_case if which == "x" else bytegen.asm_case)(rnd, corpus)
-        data = data[:4096]
-        src = os.path.join(d, "in.src")
-        open(src, "wb").write(data)
-        outp = os.path.join(d, "out.bin")
-        if os.path.exists(outp):
-            os.unlink(outp)
-        try:
-            r = subprocess.run([cli_san, src, "-o", outp], cwd=d, env=env, stdout=subprocess.PIPE, stderr=subprocess.PIPE, timeout=30)
-        except subprocess.TimeoutExpired:
-            v.violation("cli:hang", {"input_hex": data.hex()})
+        items.append((cls, data[:4096]))
+    with ThreadPoolExecutor(max_workers=common.NCPU) as ex:
+        results = list(ex.map(_cli_one, [(cli_san, d, k, cls, data, env) for k, (cls, data) in enumerate(items)]))
+    for cls, data, res in results:
+        if res is None:
+            v.violation("cli:hang", {"class": cls, "input_hex": data.hex()})
             continue
+        rc, err, wrote = res
         v.cov["evaluations"] += 1
         v.count("cli_sample_runs")
-        err = r.stderr.decode("latin-1")
-        wrote = os.path.exists(outp)
-        if r.returncode < 0 or r.returncode in (66, 67) or "runtime error:" in err or "AddressSanitizer" in err:
-            v.violation("cli:" + key_of("exit %s" % r.returncode, err), {"class": cls, "input_hex": data.hex(), "report": err[-1200:]})
-        elif r.returncode == 0 and not wrote:
+        if cls == "echoed-line":
+            v.count("cli_echoed_line_cases")
+        if rc < 0 or rc in (66, 67) or "runtime error:" in err or "AddressSanitizer" in err:
+            v.violation("cli:" + key_of("exit %s" % rc, err), {"class": cls, "input_hex": data.hex(), "report": err[-1200:]})
+        elif rc == 0 and not wrote:
             v.violation("cli:status-0-without-output", {"class": cls, "input_hex": data.hex(), "stderr": err[:300]})
-        elif r.returncode != 0 and (wrote or not err.strip()):
+        elif rc != 0 and (wrote or not err.strip()):
             v.violation("cli:rejected-uncleanly", {"class": cls, "input_hex": data.hex(), "wrote": wrote, "stderr": err[:300]})
     shutil.rmtree(d, ignore_errors=True)
 
@@ -179,25 +215,35 @@ def memcheck_worker(job):
     return n, bad
 
 
+def _confirm_one(args):
+    which, exe, data = args
+    f = {"src": data}
+    if which == "x":
+        f["want"] = "noexec"
+    d = common.scratch("fzto")
+    common.write_cases(os.path.join(d, "in"), [(0, f)])
+    env = dict(os.environ)
+    env["VERIF_CASE_TIMEOUT_MS"] = "80000"
+    try:
+        subprocess.run([exe, "cases", os.path.join(d, "in"), os.path.join(d, "out")], cwd=d, timeout=700, env=env,
+                       stdout=subprocess.DEVNULL, stderr=subprocess.DEVNULL)
+        hang = '"status":"timeout"' in open(os.path.join(d, "out")).read()
+    except subprocess.TimeoutExpired:
+        hang = True
+    shutil.rmtree(d, ignore_errors=True)
+    return data, hang
+
+
 def confirm_timeouts(v, which, exe, datas):
     """Re-run watchdog firings alone with a 10x budget: reproduced -> hang, else inconclusive."""
-    for data in datas[:20]:
-        f = {"src": data}
-        if which == "x":
-            f["want"] = "noexec"
-        d = common.scratch("fzto")
-        common.write_cases(os.path.join(d, "in"), [(0, f)])
-        try:
-            subprocess.run([exe, "cases", os.path.join(d, "in"), os.path.join(d, "out")], cwd=d, timeout=700,
-                           stdout=subprocess.DEVNULL, stderr=subprocess.DEVNULL)
-            line = open(os.path.join(d, "out")).read()
-            if '"status":"timeout"' in line:
-                v.violation("hang", {"input_hex": data.hex()})
+    from concurrent.futures import ThreadPoolExecutor
+    sel = sorted(set(datas), key=len)[:8]
+    with ThreadPoolExecutor(max_workers=8) as ex:
+        for data, hang in ex.map(_confirm_one, [(which, exe, data) for data in sel]):
+            if hang:
+                v.violation("hang", {"input_hex": data.hex(), "input_latin1": data.decode("latin-1")[:2000]})
             else:
                 v.count("watchdog_not_reproduced")
-        except subprocess.TimeoutExpired:
-            v.violation("hang", {"input_hex": data.hex()})
-        shutil.rmtree(d, ignore_errors=True)
 
 
 def libfuzzer_stage(v, which, fz_exe, san_exe, corpus, seconds):
